@@ -472,18 +472,48 @@ func ruleOffsetOrientation(c *Ctx) {
 		}
 		n++
 		okOp := as.Tok == token.ADD_ASSIGN || as.Tok == token.ASSIGN
-		c.Check("C07.i", "offset applied upwards with a plus", as, okOp && strings.Contains(p.Src(as.Rhs[0]), "offset"), "the ask's relative priority is updated with `%s %s %s`: a subtracted offset raises the ask's rank instead of lowering it, so allocations that outrank the ask become victims", p.Src(as.Lhs[0]), as.Tok, p.Src(as.Rhs[0]))
+		c.Check("C07.i", "offset applied upwards with a plus", as, okOp && mentionsOffset(p, fn, as.Rhs[0]), "the ask's relative priority is updated with `%s %s %s`: a subtracted offset raises the ask's rank instead of lowering it, so allocations that outrank the ask become victims", p.Src(as.Lhs[0]), as.Tok, p.Src(as.Rhs[0]))
 		return true
 	})
 	c.Floor("C07.i", "priority updates in findPreemptionFenceRoot", n, 2)
 	if fn2 := c.MustFunc("C07.i", "objects.Queue.findEligiblePreemptionVictims"); fn2 != nil {
 		minus := false
 		ast.Inspect(fn2.Decl.Body, func(nd ast.Node) bool {
-			if be, ok := nd.(*ast.BinaryExpr); ok && be.Op == token.SUB && strings.Contains(p.Src(be.X), "askPriority") && strings.Contains(strings.ToLower(p.Src(be.Y)), "offset") {
+			if be, ok := nd.(*ast.BinaryExpr); ok && be.Op == token.SUB && p.isParam(fn2, be.X, p.paramOfType(fn2, "int64")) && mentionsOffset(p, fn2, be.Y) {
 				minus = true
 			}
 			return true
 		})
 		c.Check("C07.i", "offset applied downwards with a minus", fn2.Decl, minus, "findEligiblePreemptionVictims no longer computes askPriority - offset for an unfenced child")
 	}
+}
+
+// mentionsOffset: the expression uses the queue's configured priority offset: the second result of
+// GetPriorityPolicyAndOffset (through a local) or the priorityOffset field.
+func mentionsOffset(p *Prog, fn *Func, e ast.Expr) bool {
+	found := false
+	ast.Inspect(e, func(n ast.Node) bool {
+		switch x := n.(type) {
+		case *ast.Ident:
+			st := p.StateAt(fn, x)
+			if st == nil {
+				return true
+			}
+			if d := st.Env.get(p.ObjOf(x)); d != nil && d.Rhs != nil {
+				if call, ok := unparen(d.Rhs).(*ast.CallExpr); ok && p.IsCall(call, "objects.Queue.GetPriorityPolicyAndOffset") && d.Idx == 1 {
+					found = true
+				}
+			}
+		case *ast.SelectorExpr:
+			if f := p.SelField(x); f != nil && f.Name() == "priorityOffset" {
+				found = true
+			}
+		case *ast.CallExpr:
+			if p.IsCall(x, "objects.Queue.GetPriorityPolicyAndOffset") {
+				found = true
+			}
+		}
+		return true
+	})
+	return found
 }
